@@ -63,7 +63,14 @@ ASSUMPTIONS = [
     'for larger d (conditioning, not enumeration logic); N <= 11.  In addition the degrees d = 9..12 are executed for '
     'N = 1, 2 (thorough: also (3,9), (3,10)) in every run with the tolerance 1e-8 (d = 9, 10) resp. 1e-7 (d = 11, 12): the '
     'measured residual there is 2.8e-12 ... 8.8e-11 and depends on d only',
-    'rays are generated with the default seed matrix S = I (the only form the consumers init_tensor/extract_tensor use)',
+    'pair buckets use the default seed matrix S = I (the only form the consumers init_tensor/extract_tensor use); the '
+    'seed-matrix bucket passes S explicitly (identity, symmetric, non-symmetric, triangular, rotation, rectangular (N, N+1) '
+    'and (N, N-1); float64, int64, nested list): rays must be J S exactly (row j = sum_k j_k S[k,:], what the code computes '
+    'and the only reading for which rectangular seeds work; the docstring says "shape (M,N)", which numpy.dot(J, S) rejects '
+    'unless M = N), Gamma must not depend on S, and Gamma y_d must be the tensor of g(z) = f(x0 + z S); the delta identity '
+    'itself refers to the multi-indices (z space) and is checked by the pair buckets',
+    'consumer:poly seeds a second input for the same (d, N) before using the first (both must give their own tensor, no '
+    'shared memory), and re-seeds after the caller modified its input in place (data must be base point, rays, zeros)',
     'consumer check: tolerance 1e-9 relative to sum_j |Gamma[i,j]| * (sum of absolute Taylor terms along ray j); '
     'reference = exact polynomial differentiation (oracles.ExactPoly, Fractions) resp. mpmath.diff at 40 digits',
     'extract_tensor(as_full_matrix=True) is only asserted for d = 2 (its docstring: "extracts the Hessian of shape (N,N)")',
@@ -300,87 +307,266 @@ def _poly_from_terms(N, terms):
     return ExactPoly(N, {tuple(int(e) for e in k): int(c) for k, c in terms})
 
 
+def _eval_poly_utpm(x, terms):
+    y = None
+    for k, c in terms:
+        m = None
+        for i, e in enumerate(k):
+            if e:
+                f = _upow(x[i], e)
+                m = f if m is None else m * f
+        m = (float(c) * m) if m is not None else float(c)
+        y = m if y is None else y + m
+    if not isinstance(y, UTPM):       # constant polynomial: promote
+        y = x[0] * 0.0 + y
+    return y
+
+
 def prop_poly(case, stats):
     N, d = int(case['N']), int(case['d'])
     x0 = np.asarray(case['x0'], dtype=float)
+    x0b = None if case.get('x0b') is None else np.asarray(case['x0b'], dtype=float)
     terms = [(tuple(k), c) for k, c in case['terms']]
     what = 'poly(N=%d,d=%d,base point passed as %s)' % (N, d, case.get('x0_form', 'f64'))
     labels = _labels(N, d, what)
     p = _poly_from_terms(N, terms)
     pabs = ExactPoly(N, {k: abs(v) for k, v in p.t.items()})
-    xf = [Fraction(float(v)) for v in x0]
-    xa = [abs(v) for v in xf]
-
     arg = _x0_arg(case)
 
     def run():
+        # two inputs for the same (d, N) are seeded BEFORE either is used: each must keep its own base point
         x = UTPM.init_tensor(d, arg)
-        y = None
-        for k, c in terms:
-            m = None
-            for i, e in enumerate(k):
-                if e:
-                    f = _upow(x[i], e)
-                    m = f if m is None else m * f
-            m = (float(c) * m) if m is not None else float(c)
-            y = m if y is None else y + m
-        if not isinstance(y, UTPM):       # constant polynomial: promote
-            y = x[0] * 0.0 + y
+        xb = UTPM.init_tensor(d, x0b.copy()) if x0b is not None else None
+        if xb is not None and np.shares_memory(x.data, xb.data):
+            raise Violation('%s: two results of init_tensor(%d, .) share memory' % (what, d))
+        snap = x.data.copy()
+        y = _eval_poly_utpm(x, terms)
+        yb = _eval_poly_utpm(xb, terms) if xb is not None else None
+        if not np.array_equal(x.data, snap):
+            raise Violation('%s: the input returned by init_tensor changed while it was in use' % what)
         vec = UTPM.extract_tensor(N, y, as_full_matrix=False)
         full = UTPM.extract_tensor(N, y) if d == 2 else None
-        return vec, full
-    vec, full = guard(run)
+        vecb = UTPM.extract_tensor(N, yb, as_full_matrix=False) if yb is not None else None
+        # the caller scribbles on ITS input; a fresh init_tensor must be unaffected
+        x.data[1] *= 0.5
+        x.data[0] += 1.0
+        xc = UTPM.init_tensor(d, arg)
+        return vec, full, vecb, xc
+    vec, full, vecb, xc = guard(run)
     _x0_unchanged(what, arg, case)
-    vec = np.asarray(vec, dtype=float)
     NJ = len(labels)
-    if vec.shape != (NJ,):
-        raise Violation('%s: extract_tensor(as_full_matrix=False) has shape %s, expected (%d,)' % (what, vec.shape, NJ))
-    # exact reference and the magnitude of the terms entering entry i
     Gabs, rays = _gamma_abs(N, d)
-    # sum of absolute Taylor terms of degree d along each ray: sum_beta |f|_beta(|x0|) * |ray^beta|
-    tay_abs = {al: pabs.diff_multi(al).eval(xa) / _fact(al) for al in labels}
+    want = np.zeros((d + 1, NJ, N))
+    want[0] = x0
+    if d >= 1:
+        want[1] = rays
+    if not isinstance(xc, UTPM) or xc.data.shape != want.shape or not np.array_equal(np.asarray(xc.data, dtype=float), want):
+        raise Violation('%s: init_tensor after the caller modified an earlier input in place does not return the base '
+                        'point and the rays: data[0][0]=%r data[1][:2]=%r'
+                        % (what, np.asarray(xc.data)[0][0].tolist(), np.asarray(xc.data)[min(1, d)][:2].tolist()))
+
+    def check(vec, full, xpt, tag):
+        xf = [Fraction(float(v)) for v in xpt]
+        xa = [abs(v) for v in xf]
+        vec = np.asarray(vec, dtype=float)
+        if vec.shape != (NJ,):
+            raise Violation('%s%s: extract_tensor(as_full_matrix=False) has shape %s, expected (%d,)' % (what, tag, vec.shape, NJ))
+        # sum of absolute Taylor terms of degree d along each ray: sum_beta |f|_beta(|x0|) * |ray^beta|
+        tay_abs = {al: pabs.diff_multi(al).eval(xa) / _fact(al) for al in labels}
+        yabs = np.zeros(NJ)
+        for j in range(NJ):
+            sm = Fraction(0)
+            for al, v in tay_abs.items():
+                if v:
+                    m = v
+                    for rn, e in zip(rays[j], al):
+                        if e:
+                            m = m * Fraction(int(rn)) ** e
+                    sm += abs(m)
+            yabs[j] = float(sm)
+        scale = Gabs.dot(yabs)
+        worst = 0.0
+        for i, al in enumerate(labels):
+            ref = p.diff_multi(al).eval(xf) / _fact(al)
+            sc = max(float(scale[i]), abs(float(ref)), 1e-300)
+            if not np.isfinite(vec[i]):
+                raise Violation('%s%s: entry for multi-index %s is %r, exact value %s' % (what, tag, al, vec[i], ref))
+            err = abs(Fraction(float(vec[i])) - ref)
+            rel = float(err) / sc
+            worst = max(worst, rel)
+            if rel > _tol(d):
+                raise Violation('%s%s at x0=%s, terms=%s: Gamma.y_d entry for multi-index %s is %.17g, exact partial/factorial is %s '
+                                '(error %.3e, term magnitude %.3e)' % (what, tag, list(map(float, xpt)), terms, al, vec[i], ref, float(err), sc))
+        stats.err(worst)
+        if full is not None:
+            full = np.asarray(full, dtype=float)
+            if full.shape != (N, N):
+                raise Violation('%s: extract_tensor full matrix has shape %s' % (what, full.shape))
+            for a_ in range(N):
+                for b_ in range(N):
+                    al = [0] * N
+                    al[a_] += 1
+                    al[b_] += 1
+                    ref = p.diff_multi(tuple(al)).eval(xf)
+                    i = labels.index(tuple(al))
+                    sc = max(2 * float(scale[i]), abs(float(ref)), 1e-300)
+                    if not np.isfinite(full[a_, b_]) or abs(float(Fraction(float(full[a_, b_])) - ref)) > _tol(d) * sc:
+                        raise Violation('%s at x0=%s, terms=%s: Hessian entry [%d,%d] from extract_tensor is %.17g, exact %s'
+                                        % (what, list(map(float, xpt)), terms, a_, b_, full[a_, b_], ref))
+
+    check(vec, full, x0, '')
+    if vecb is not None:
+        check(vecb, None, x0b, ' [second input seeded before the first was used, x0b]')
+
+
+# ---------------------------------------------------------------------------
+# part 3: the seed matrix S of generate_Gamma_and_rays
+# ---------------------------------------------------------------------------
+
+@functools.lru_cache(maxsize=None)
+def _gamma_default(N, d):
+    G, rays = guard(exint.generate_Gamma_and_rays, N, d)
+    return np.asarray(G).copy(), np.asarray(rays).copy()
+
+
+def prop_seed(case, stats):
+    """generate_Gamma_and_rays(N, d, S): rays_j = sum_k j_k S[k, :] (the rows of S are the directions attached to the
+    components of the multi-index: rays = J S, S of shape (N, M)); Gamma does not depend on S; Gamma y_d is the tensor
+    of g(z) = f(x0 + z S) with respect to z"""
+    N, d = int(case['N']), int(case['d'])
+    S = np.asarray(case['S'])
+    M = S.shape[1]
+    what = 'generate_Gamma_and_rays(%d, %d, S=%s %s)' % (N, d, case['kind'], S.tolist())
+    labels = _labels(N, d, what)
+    NJ = len(labels)
+    G0, _ = _gamma_default(N, d)
+    Sarg = S.tolist() if case.get('as_list') else S.copy()
+    G, rays = guard(exint.generate_Gamma_and_rays, N, d, Sarg)
+    G = np.asarray(G)
+    rays = np.asarray(rays)
+    if not case.get('as_list') and not np.array_equal(Sarg, S):
+        raise Violation('%s: the seed matrix argument was modified' % what)
+    if G.shape != G0.shape or not np.array_equal(G, G0):
+        raise Violation('%s: Gamma differs from Gamma for S=None' % what)
+    # independent: row j of the rays is sum_k j_k * S[k, :]   (exact: small integers)
+    want = [[sum(int(al[k]) * Fraction(float(S[k, m])) for k in range(N)) for m in range(M)] for al in labels]
+    if rays.shape != (NJ, M):
+        raise Violation('%s: rays have shape %s, expected %s' % (what, rays.shape, (NJ, M)))
+    for j, al in enumerate(labels):
+        for m in range(M):
+            if Fraction(float(rays[j, m])) != want[j][m]:
+                raise Violation('%s: ray of multi-index %s is %s, expected sum_k j_k S[k,:] = %s'
+                                % (what, al, rays[j].tolist(), [float(v) for v in want[j]]))
+    # semantics: f polynomial on R^M, x(t) = x0 + t ray_j; Gamma y_d = partials of g(z) = f(x0 + z S) / alpha!
+    terms = [(tuple(k), c) for k, c in case['terms']]
+    x0 = np.asarray(case['x0'], dtype=float)
+
+    def run():
+        data = np.zeros((d + 1, NJ, M))
+        data[0] = x0
+        if d >= 1:
+            data[1] = rays
+        y = _eval_poly_utpm(UTPM(data), terms)
+        return np.dot(G, y.data[d])
+    vec = np.asarray(guard(run), dtype=float)
+    # exact g(z): substitute x_m = x0_m + sum_k S[k,m] z_k
+    xs = []
+    for m in range(M):
+        q = ExactPoly.const(N, Fraction(float(x0[m])))
+        for k in range(N):
+            q = q + ExactPoly.var(N, k) * Fraction(float(S[k, m]))
+        xs.append(q)
+    gpoly = ExactPoly.const(N, 0)
+    gabs = ExactPoly.const(N, 0)
+    xs_abs = [ExactPoly(N, {kk: abs(v) for kk, v in q.t.items()}) for q in xs]
+    for k, c in terms:
+        mono = ExactPoly.const(N, 1)
+        mabs = ExactPoly.const(N, 1)
+        for m, e in enumerate(k):
+            if e:
+                mono = mono * xs[m] ** e
+                mabs = mabs * xs_abs[m] ** e
+        gpoly = gpoly + mono * c
+        gabs = gabs + mabs * abs(c)
+    zero = [Fraction(0)] * N
+    Gabs = np.abs(G0)
+    # magnitude of the d-th Taylor coefficient along ray j, with absolute values: sum_beta |g|_beta |j^beta|
+    tay_abs = {al: gabs.diff_multi(al).eval(zero) / _fact(al) for al in labels}
     yabs = np.zeros(NJ)
-    for j in range(NJ):
-        s = Fraction(0)
+    for j, jl in enumerate(labels):
+        sm = Fraction(0)
         for al, v in tay_abs.items():
             if v:
-                m = v
-                for rn, e in zip(rays[j], al):
+                mm = v
+                for jn, e in zip(jl, al):
                     if e:
-                        m = m * Fraction(int(rn)) ** e
-                s += abs(m)
-        yabs[j] = float(s)
+                        mm = mm * Fraction(int(jn)) ** e
+                sm += mm
+        yabs[j] = float(sm)
     scale = Gabs.dot(yabs)
     worst = 0.0
-    refs = []
     for i, al in enumerate(labels):
-        ref = p.diff_multi(al).eval(xf) / _fact(al)
-        refs.append(ref)
+        ref = gpoly.diff_multi(al).eval(zero) / _fact(al)
         sc = max(float(scale[i]), abs(float(ref)), 1e-300)
         if not np.isfinite(vec[i]):
-            raise Violation('%s: entry for multi-index %s is %r, exact value %s' % (what, al, vec[i], ref))
-        err = abs(Fraction(float(vec[i])) - ref)
-        rel = float(err) / sc
+            raise Violation('%s: Gamma.y_d entry %s is %r' % (what, al, vec[i]))
+        rel = float(abs(Fraction(float(vec[i])) - ref)) / sc
         worst = max(worst, rel)
         if rel > _tol(d):
-            raise Violation('%s at x0=%s, terms=%s: Gamma.y_d entry for multi-index %s is %.17g, exact partial/factorial is %s '
-                            '(error %.3e, term magnitude %.3e)' % (what, x0.tolist(), terms, al, vec[i], ref, float(err), sc))
+            raise Violation('%s, f terms=%s at x0=%s: Gamma.y_d entry for multi-index %s is %.17g, the partial of '
+                            'g(z) = f(x0 + z S) / alpha! is %s (term magnitude %.3e)'
+                            % (what, terms, x0.tolist(), al, vec[i], ref, sc))
     stats.err(worst)
-    if full is not None:
-        full = np.asarray(full, dtype=float)
-        if full.shape != (N, N):
-            raise Violation('%s: extract_tensor full matrix has shape %s' % (what, full.shape))
-        for a in range(N):
-            for b in range(N):
-                al = [0] * N
-                al[a] += 1
-                al[b] += 1
-                ref = p.diff_multi(tuple(al)).eval(xf)
-                i = labels.index(tuple(al))
-                sc = max(2 * float(scale[i]), abs(float(ref)), 1e-300)
-                if not np.isfinite(full[a, b]) or abs(float(Fraction(float(full[a, b])) - ref)) > _tol(d) * sc:
-                    raise Violation('%s at x0=%s, terms=%s: Hessian entry [%d,%d] from extract_tensor is %.17g, exact %s'
-                                    % (what, x0.tolist(), terms, a, b, full[a, b], ref))
+
+
+def _seed_classes(case):
+    S = np.asarray(case['S'])
+    return ['N=%d' % case['N'], 'd=%d' % case['d'], 'seed-matrix:' + case['kind'], 'seed-matrix:M=%s' % ('N' if S.shape[1] == case['N'] else
+            ('N+1' if S.shape[1] > case['N'] else 'N-1')), 'seed-matrix:passed-as-' + ('list' if case.get('as_list') else str(S.dtype))]
+
+
+def _seed_nontrivial(case):
+    S = np.asarray(case['S'])
+    return case['N'] >= 2 and case['d'] >= 2 and not (S.shape[0] == S.shape[1] and np.array_equal(S, S.T))
+
+
+SEED_PAIRS = [(2, 2), (2, 3), (3, 2), (2, 2), (2, 3), (3, 2), (3, 3), (2, 4), (4, 2), (1, 3), (2, 1), (3, 1)]
+
+
+@st.composite
+def seed_cases(draw, tier):
+    N, d = draw(st.sampled_from(SEED_PAIRS))
+    kind = draw(st.sampled_from(['nonsymmetric', 'wide', 'triangular', 'tall', 'rotation', 'symmetric', 'identity', 'nonsymmetric', 'wide']))
+    ent = st.integers(-3, 3)
+    if kind == 'identity':
+        S = np.eye(N)
+    elif kind == 'symmetric':
+        A = np.array(draw(st.lists(st.lists(ent, min_size=N, max_size=N), min_size=N, max_size=N)))
+        S = A + A.T
+    elif kind == 'triangular':
+        A = np.array(draw(st.lists(st.lists(ent.map(lambda v: v if v else 1), min_size=N, max_size=N), min_size=N, max_size=N)))
+        S = np.triu(A)
+        if N >= 2 and S[0, N - 1] == 0:
+            S[0, N - 1] = 2
+    elif kind == 'rotation':
+        # a quarter turn in the plane of the first two variables (integer entries: exact)
+        S = np.eye(N)
+        if N >= 2:
+            S[0, 0], S[0, 1], S[1, 0], S[1, 1] = 0, -1, 1, 0
+    else:
+        M = N + 1 if kind == 'wide' else (max(N - 1, 1) if kind == 'tall' else N)
+        S = np.array(draw(st.lists(st.lists(ent, min_size=M, max_size=M), min_size=N, max_size=N)))
+        if kind == 'nonsymmetric' and N >= 2 and np.array_equal(S, S.T):
+            S[0, 1] += 1
+    dt = draw(st.sampled_from(['float64', 'int64', 'list']))
+    S = np.asarray(S, dtype=np.int64 if dt == 'int64' else float)
+    M = S.shape[1]
+    terms = {}
+    for t in range(draw(st.integers(1, 3))):
+        deg = d if t == 0 else draw(st.sampled_from([d, d + 1, max(d - 1, 0)]))
+        terms[draw(_exponent(M, deg))] = draw(st.integers(-5, 5).map(lambda v: v if v else 1))
+    x0 = np.array(draw(st.lists(st.integers(-2, 2), min_size=M, max_size=M)), dtype=float)
+    return {'N': N, 'd': d, 'S': S, 'kind': kind, 'as_list': dt == 'list', 'x0': x0, 'terms': [(k, terms[k]) for k in sorted(terms)]}
 
 
 def _poly_has_mixed(case):
@@ -399,6 +585,8 @@ def _poly_classes(case):
     d = case['d']
     degs = [sum(k) for k, c in case['terms']]
     c = ['N=%d' % case['N'], 'd=%d' % d, 'consumer:poly', 'terms=%d' % len(degs), 'x0-form=' + case.get('x0_form', 'f64')]
+    if case.get('x0b') is not None:
+        c.append('two-inputs-seeded-before-use')
     if any(g < d for g in degs):
         c.append('has-degree<d')
     if any(g == d for g in degs):
@@ -443,7 +631,11 @@ def poly_cases(draw, tier):
     else:
         pt = st.one_of(st.integers(-3, 3).map(float), st.integers(-12, 12).map(lambda v: v / 4.0))
         x0 = _x0_build(form, vals=draw(st.lists(pt, min_size=N, max_size=N)))
-    return {'N': N, 'd': d, 'x0': x0, 'x0_form': form, 'terms': [(k, terms[k]) for k in sorted(terms)]}
+    case = {'N': N, 'd': d, 'x0': x0, 'x0_form': form, 'terms': [(k, terms[k]) for k in sorted(terms)]}
+    if draw(st.booleans()):
+        # a second base point for the same (d, N), seeded before the first input is used
+        case['x0b'] = np.array(draw(st.lists(st.integers(-12, 12).map(lambda v: v / 4.0), min_size=N, max_size=N)), dtype=float)
+    return case
 
 
 # ridge functions g(a . x): D^alpha f (x0) / alpha! = a^alpha / alpha! * g^(d)(a . x0)
@@ -582,6 +774,8 @@ def buckets(tier):
                          weight=_pair_cost(N, d)))
     bl.append(Bucket('consumer:poly', (lambda: poly_cases(tier)), prop_poly, {'quick': 60, 'thorough': 250},
                      nontrivial=_poly_nontrivial, classes=_poly_classes, shards={'quick': 4, 'thorough': 8}, weight=1.0))
+    bl.append(Bucket('seed-matrix', (lambda: seed_cases(tier)), prop_seed, {'quick': 40, 'thorough': 300},
+                     nontrivial=_seed_nontrivial, classes=_seed_classes, shards={'quick': 2, 'thorough': 4}, weight=1.0))
     bl.append(Bucket('consumer:ridge', (lambda: ridge_cases(tier)), prop_ridge, {'quick': 40, 'thorough': 150},
                      nontrivial=_ridge_nontrivial, classes=_ridge_classes, shards={'quick': 2, 'thorough': 6}, weight=1.0))
     return bl
